@@ -82,7 +82,34 @@ class QResult:
         return f"{self.status}/{self.method}/{self.secs:.2f}s"
 
 
+CROSS_DONE = []
+CROSS = []  # results of cross-solver re-decisions in this process (thorough tier)
+_NQ = [0]
+
+
+def _maybe_cross(q):
+    """Thorough tier: every 5th decided query (at most 15 per worker process) is exported as SMT-LIB2 and re-decided by the
+    system z3 4.8.12 and cvc5; disagreements are reported by the driver as machinery faults."""
+    import os
+    if os.environ.get("VERIF_CROSSCHECK") != "1" or q.solver is None:
+        return q
+    _NQ[0] += 1
+    if _NQ[0] % 5 or len(CROSS_DONE) >= 15 or q.status not in ("sat", "unsat"):
+        return q
+    try:
+        res = cross_check(q.solver, q.status, timeout_s=20)
+    except Exception as e:  # noqa: BLE001
+        res = {"error": str(e)[:100]}
+    CROSS.append({"expected": q.status, "method": q.method, "others": res})
+    CROSS_DONE.append(1)
+    return q
+
+
 def decide(cons, timeout_ms=20000, abstract_first=True, want_smt2=False):
+    return _maybe_cross(_decide(cons, timeout_ms, abstract_first))
+
+
+def _decide(cons, timeout_ms=20000, abstract_first=True):
     """cons: list of z3 Bool (python bools allowed). Returns QResult with status in
     unsat / sat / unknown."""
     t0 = time.time()
